@@ -877,6 +877,80 @@ def option_partition(ctx: Ctx, rep: Report, rid: str = "R01.11") -> None:
         rep.ok("Option.line setter: partition", f"both lists select from {b1}", where=where(f))
 
 
+def address_spellings_whole(ctx: Ctx, rep: Report, rid: str = "R01.16") -> None:
+    """Each spelling of an address is read whole by the ACE grammars: the assembled pattern of `parse_ace_standard` /
+    `parse_ace_extended` is matched against witness lines, one per spelling (any, host A, object-group NAME, A/LEN, A W,
+    bare A), with and without a trailing option, and the address group must be the spelling as written (an alternation
+    that tries the bare address before `A/LEN` reads a /24 as a host and drops the rest)."""
+    import re as _re2
+
+    rep.rule(rid)
+    spellings = ["any", "host 10.1.1.1", "10.20.30.0/24", "10.0.0.0 0.0.0.255", "10.1.1.199"]
+    n = 0
+    for q, mk in (("parsers.parse_ace_standard", lambda a, tail: f"permit {a}{tail}"), ("parsers.parse_ace_extended", lambda a, tail: f"permit ip {a} any{tail}")):
+        f = ctx.prog.find_func(q)
+        if f is None:
+            continue
+        try:
+            full, _pieces = regex_pieces(ctx, f)
+            pat = _re2.compile(full)
+        except (AnalysisError, _re2.error):
+            rep.note(f"{rid} the pattern of {q} could not be assembled (not judged; R01.1 reports it)")
+            continue
+        accepted_any = False
+        for a in spellings:
+            for tail in ("", " log"):
+                line = mk(a, tail)
+                m = pat.match(line)
+                if not m:
+                    continue  # a spelling this grammar does not have (prefix on a platform without it): nothing is mis-read
+                accepted_any = True
+                n += 1
+                rep.instance()
+                groups = [str(g or "").strip() for g in m.groups()]
+                if a in groups:
+                    rep.ok(f"{q}: {line!r}", f"address read as {a!r}", nontrivial=False, where=where(f))
+                else:
+                    near = next((g for g in groups if g and a.startswith(g)), None)
+                    rep.violation(q, f"{line!r} -> groups {groups}", f"the address {a!r} is not read whole" + (f" (read as {near!r}: an earlier alternative matches a prefix of it)" if near else "") + ": the entry means another network, and what follows the address is lost or mis-assigned", where(f), inp=f"Ace({line!r})")
+        if not accepted_any:
+            rep.note(f"{rid} {q}: no witness line matched the assembled pattern (not judged)")
+    rep.floor(6, "address spellings read by the ACE grammars") if n else None
+
+
+def group_reference_whole(ctx: Ctx, rep: Report, rid: str = "R01.17") -> None:
+    """The name of a referenced address group is everything after the keyword: the pattern of `_line_addrgroup` (folded
+    with the platform's keyword put in) reads witness names with dots, dashes, underscores and colons whole - a name cut at
+    the first dot makes two groups one (`NET-10.0.0.16` and `NET-10.7.7.0` both become `NET-10`)."""
+    import re as _re2
+
+    rep.rule(rid)
+    n = 0
+    for f in [g for g in ctx.prog.funcs if g.name == "_line_addrgroup" and g.cls is not None]:
+        env = dict(ctx.folder.local_env(f))
+        pats = []
+        for kw in ("object-group", "addrgroup", "group-object"):
+            symenv = dict(env)
+            symenv["self._cmd_addrgroup()"] = kw
+            for x in own_nodes(f.node):
+                if isinstance(x, (ast.Assign, ast.AnnAssign)) and x.value is not None:
+                    v = ctx.folder.fold(x.value, f.module, symenv)
+                    if isinstance(v, str) and kw in v and "(" in v:
+                        pats.append((kw, v))
+        for kw, pat in pats:
+            for nm in ("NAME", "NET-10.0.0.16", "a_b.c:d", "G1"):
+                n += 1
+                rep.instance()
+                m = _re2.findall(pat, f"{kw} {nm}")
+                got = m[0] if m and isinstance(m[0], str) else (m[0][0] if m and m[0] else None)
+                if got == nm:
+                    rep.ok(f"{f.qualname}: {kw} {nm}", "name read whole", nontrivial=False, where=where(f))
+                else:
+                    rep.violation(f.qualname, f"{pat!r} on '{kw} {nm}' -> {got!r}", "the referenced group name is not read whole: two groups whose names differ after the cut are the same group for the library (shadow removal works by rendered line and deletes the wrong entry)", where(f), inp=f"permit ip {kw} {nm} any")
+    if n == 0:
+        rep.note(f"{rid} the pattern of _line_addrgroup could not be folded (not judged)")
+
+
 def validated_before_stored(ctx: Ctx, rep: Report, rid: str = "R01.14") -> None:
     """A field object that refuses a value is left as it was: in the line setters that hold one derived value (Protocol:
     the number) no path stores that value and raises afterwards - otherwise the refused text has already changed the
@@ -921,6 +995,8 @@ def run(ctx: Ctx, rep: Report, tier: str) -> None:
     option_partition(ctx, rep)
     has_port_twin(ctx, rep)
     validated_before_stored(ctx, rep)
+    address_spellings_whole(ctx, rep)
+    group_reference_whole(ctx, rep)
     # R01.15 an address in the text is read whole (C13 R13.7)
     from .c13 import address_patterns_whole
 
